@@ -4,7 +4,10 @@ CHECK = {
     'level': 'exploration',
     'rule': ('cstl_array_alloc/set/slice/unslice/reset/release/at/at_const/data/size driven over 2-4 individually allocated '
              'array objects and up to 3 live buffers (internal via alloc, external via set on harness blocks of exactly nm*sz '
-             'bytes; element sizes 1/2/4/8/24). Closure generator: every op of the alphabet (alloc with nm 0/1/3 and '
+             'bytes; also a second, separate set() over a block that another object - or the object itself - already wraps, with '
+             'the same or a different nm/sz that fits: two wrappers with the same data pointer but independent library blocks, '
+             'referrer sets and geometry; and set(a, NULL, 0, sz): an object that refers to something, size 0, data NULL, slice '
+             '[0,0) legal; element sizes 1/2/4/8/24). Closure generator: every op of the alphabet (alloc with nm 0/1/3 and '
              'unsatisfiable nm*sz such as (2^63,sz), (SIZE_MAX,sz), (SIZE_MAX/sz+1,sz), (cap/sz+1,sz), alloc/set with the 1st or 2nd '
              'malloc failing, slice into every object incl. in place with beg/end from {0,1,2,size-1,size,size+1,bufend-1,bufend,'
              'bufend+1,SIZE_MAX,SIZE_MAX-1,SIZE_MAX-off-1..+2,SIZE_MAX-off+1+bufend}, unslice other/in place, reset, release with and '
@@ -18,11 +21,16 @@ CHECK = {
              'call must free exactly the blocks of buffers whose last referrer went away in that call (each once) and nothing '
              'else, live library blocks == blocks of referenced buffers; release must return the set() pointer exactly when the '
              'object is the sole user of an external buffer (object empty afterwards) and otherwise report NULL with no allocator '
-             'traffic and an unchanged full audit; unsatisfiable or failed allocations must leave size 0 / data NULL. '
+             'traffic and an unchanged full audit; every oracle applies per wrapper (a slice/unslice into an object whose own '
+             'wrapper has the same data pointer must still re-point it: the old wrapper dies if that was its last referrer, the '
+             'source wrapper gains one; release returns the base only to the sole user of THAT wrapper; the harness frees an '
+             'external block only when no wrapper views it; for the sole user of a NULL wrapper "handed back NULL" and "refused" '
+             'are both accepted and told apart by the allocator events); unsatisfiable or failed allocations must leave size 0 / data NULL. '
              'A case is distinct by the canonical signature of the object->(buffer,off,len) map with buffer kind/nm/sz and '
              'non-trivial when >= 2 objects are non-empty or some view is partial.'),
     'assumptions': ['element sizes >= 1; external buffers are harness blocks of exactly nm*sz bytes, freed by the harness only after a successful release or after the last referrer went away',
-                    'array objects are never copied bitwise (individually allocated, cstl_array_init)',
+                    'array objects are never copied bitwise (individually allocated; cstl_array_init and CSTL_ARRAY_INITIALIZER alternate)',
+                    'two separate set() wrappers over one caller-owned block are legal client behaviour (the library cannot know); a second wrapper never describes more bytes than the block has',
                     'requests above the 64 MiB allocator cap count as allocations that fail',
                     'an alloc/set that leaves the object empty without an observed allocator failure is tolerated and counted (alloc.empty-without-failure), as the statement does not forbid it',
                     'gcc 12 ASan/UBSan runtimes; harness reference model',
